@@ -79,6 +79,10 @@ func c06(c *an.Ctx) {
 		}
 	})
 
+	c.Check("R-PAIR", "planUnion / extractKeys agreement: every plan for a union selects __typename unconditionally, because type steps of sub-plans are resolved from it", 2, func(o *an.O) {
+		rulePlanUnionTypename(c, o)
+	})
+
 	c.Check("R-TS", "mergeSameAlias copy-on-write: a group's selection set is shallow-copied before its first append, and the copied flag is reset whenever a new group starts", 3, func(o *an.O) {
 		fn := c.NeedFunc(fed, "mergeSameAlias")
 		copies := an.CallsAny(fn, an.CalleeSpec{Pkg: an.ModulePath + "/" + gq, Recv: "SelectionSet", Name: "ShallowCopy"})
